@@ -220,3 +220,9 @@ N('benign.mpint-word-count-closed-form', [(P + 'common/parse.py', "        lengt
 N('benign.vector-list-constructor', [(P + 'common/base.py', "        self.param = self.get_param()\n        self._items = []\n\n        for item in items:", "        self.param = self.get_param()\n        self._items = list()\n\n        for item in items:")])
 N('benign.byte-order-polarity', [(P + 'common/parse.py', "                    if self.byte_order in [ByteOrder.BIG_ENDIAN, ByteOrder.NETWORK]:\n                        item_bytes = b'\\x00' + item_bytes\n                    else:\n                        item_bytes = item_bytes + b'\\x00'",
                                   "                    if self.byte_order in (ByteOrder.LITTLE_ENDIAN, ByteOrder.NATIVE):\n                        item_bytes = item_bytes + b'\\x00'\n                    else:\n                        item_bytes = b'\\x00' + item_bytes")])
+B('C11.fixed-mpint-off-by-one', ['C11'], [(P + 'common/parse.py', "        if length < len(mpint_bytes):\n            raise InvalidValue(length, type(self), 'mpint_length')", "        if length <= len(mpint_bytes):\n            raise InvalidValue(length, type(self), 'mpint_length')")], mention=['C11.R6'])
+B('C11.fixed-mpint-pad-side', ['C11'], [(P + 'common/parse.py', "        if self.byte_order in [ByteOrder.BIG_ENDIAN, ByteOrder.NETWORK]:\n            self.compose_raw((length - len(mpint_bytes)) * pad_byte)\n            self.compose_raw(mpint_bytes)\n        else:",
+                                         "        if self.byte_order in [ByteOrder.LITTLE_ENDIAN]:\n            self.compose_raw((length - len(mpint_bytes)) * pad_byte)\n            self.compose_raw(mpint_bytes)\n        else:")], mention=['C11.R6'])
+B('C08.keytag-little-endian', ['C08'], [(P + 'dnsrec/record.py', "parser = ParserBinary(self.compose(), byte_order=ByteOrder.BIG_ENDIAN)", "parser = ParserBinary(self.compose(), byte_order=ByteOrder.LITTLE_ENDIAN)")], mention=['C08.R3'])
+B('C08.keytag-full-fold', ['C08'], [(P + 'dnsrec/record.py', "        key_tag += (key_tag >> 16) & 0xffff\n        return key_tag & 0xffff", "        while key_tag >> 16:\n            key_tag = (key_tag & 0xffff) + (key_tag >> 16)\n        return key_tag")], mention=['C08.R3'])
+N('benign.keytag-rewritten', [(P + 'dnsrec/record.py', "        key_tag += (key_tag >> 16) & 0xffff\n        return key_tag & 0xffff", "        key_tag = key_tag + ((key_tag >> 16) & 0xffff)\n        return key_tag % 0x10000")])
